@@ -103,7 +103,7 @@ def corpus():
 
 def variants():
     """audit classes B-E: parameter boundaries, input representations, falsy labels, rarely taken branches.
-    (problem, params) per component; run for seeds {0, 1} only"""
+    (problem, params) per component; run for seed 0 in the quick tier, seeds {0, 1} in the thorough tier"""
     det = dict(deterministic=True, n=12)
     g = dict(reward="goal")
     near1 = "1048575/1048576"            # discount 1 - 2^-20
@@ -200,7 +200,7 @@ def build_cases(ctx):
                         c["scrambles"] = 4
                     cases.append(c)
         for prob, par in variants()[comp]:
-            for seed in seeds[:2]:
+            for seed in (seeds[:1] if tier == "quick" else seeds[:2]):      # quick: seed 0 only (always included)
                 c = {"component": comp, "problem": prob, "params": par, "seed": seed, "origin": "variant",
                      "x": "second_problem_n_delta" in par, "t": seed == 0}
                 if comp == "pomdp_rollout":
